@@ -737,10 +737,12 @@ func runNode(c Case) (res nodeRun) {
 					bad("Lookup(%q) did not return the inode already in the go-fuse tree", o.Name)
 				}
 				lookupNode[o.Name] = r.inode
-				if o.Reg && o.Name != "" && r.kind != "state" {
-					// what rawBridge.Lookup does with the result (addNewChild)
+				if o.Reg && o.Name != "" && registered[o.Name] != r.inode {
+					// what rawBridge.Lookup does with the result (addNewChild) — for every kind of child, the state
+					// directory included (its inode is the only child of the root that is neither a node nor a whiteout)
 					inode.AddChild(o.Name, r.inode, true)
 					registered[o.Name] = r.inode
+					res.stats = append(res.stats, "register."+r.kind)
 				}
 				res.stats = append(res.stats, "lookup."+r.kind)
 			} else {
@@ -832,6 +834,12 @@ func runNode(c Case) (res nodeRun) {
 		listed := map[string][]dirent{}
 		for _, e := range ents {
 			listed[e.Name] = append(listed[e.Name], e)
+		}
+		// the state directory stays reachable from the root, whatever the history left in the go-fuse tree
+		if isRoot {
+			if r := doLookup(n, stateDir); r.errno != 0 || r.kind != "state" {
+				bad("Lookup(%q) on the root after the history: errno %d kind %q (want the state directory)", stateDir, int(r.errno), r.kind)
+			}
 		}
 		// hidden names never listed
 		for _, e := range ents {
@@ -1072,6 +1080,7 @@ func runNode(c Case) (res nodeRun) {
 func stateProbe(n fusefs.InodeEmbedder, ol *openLayer, c Case, bad func(string, ...any)) Obs {
 	r := doLookup(n, stateDir)
 	if r.errno != 0 {
+		bad("Lookup(%q) on the root failed with errno %d: the state directory is unreachable", stateDir, int(r.errno))
 		return Obs{Z: []int64{int64(r.errno)}}
 	}
 	if r.kind != "state" {
@@ -1891,6 +1900,15 @@ func genOps(r *hx.Rng, c Case, isDir bool) []Op {
 			}
 		}
 	}
+	if isDir && c.Path == "" && r.Chance(1, 2) {
+		// the kernel re-looks the state directory up while its inode is still alive (liveness probes do)
+		at := r.Intn(len(ops) + 1)
+		seq := []Op{{Op: "lookup", Name: stateDir, Reg: true}, {Op: "lookup", Name: stateDir, Reg: r.Bool()}}
+		if r.Chance(1, 3) {
+			seq = append(seq, Op{Op: "state"})
+		}
+		ops = append(ops[:at:at], append(seq, ops[at:]...)...)
+	}
 	return ops
 }
 
@@ -2067,6 +2085,31 @@ func corpus() []Case {
 			Ops: []Op{rd, {Op: "state"}, lk(estargz.NoPrefetchLandmark, false), lk("b", true), lk("f", true), lk("b", false), lk("f", false), lk(stateDir, false), {Op: "getxattr", Name: "user.overlay.opaque", Dlen: 8}}},
 		{Layers: [][]TarEnt{lower, upper}, LI: 1, Path: "a/c", Store: "memory", Opaque: 0, Base: 65536, BSize: 5, Fetched: 0,
 			Ops: []Op{{Op: "getxattr", Name: "trusted.overlay.opaque", Dlen: 0}, {Op: "getxattr", Name: "trusted.overlay.opaque", Dlen: 1}, {Op: "getxattr", Name: "user.overlay.opaque", Dlen: 9}, {Op: "listxattr", Dlen: 0}, {Op: "listxattr", Dlen: 100}, rd, lk(opqMarker, false), lk("e", false)}},
+		// the state directory looked up again while its inode is kept as a go-fuse child of the root (memory and db, before and
+		// after the listing is memoised), then walked; a real child, a whiteout and a miss in between
+		{Layers: [][]TarEnt{lower, upper}, LI: 1, Path: "", Store: "memory", Opaque: 1, Base: 11, BSize: 77, Fetched: 7,
+			Ops: []Op{lk(stateDir, true), lk(stateDir, true), {Op: "state"}, rd, lk(stateDir, false), lk("b", true), lk("b", true), lk("a", true), lk("a", false), {Op: "forget", Name: stateDir}, lk(stateDir, true), lk(stateDir, false), {Op: "state"}}},
+		{Layers: [][]TarEnt{lower}, LI: 0, Path: "", Store: "db", Opaque: 0, Base: 12, BSize: 5, Fetched: 5,
+			Ops: []Op{rd, lk(stateDir, true), lk("zz", false), lk(stateDir, false), {Op: "state"}, lk(stateDir, true)}},
+		// every opaque mode on a directory with the marker and on one without (xattr of the configured names only)
+		{Layers: [][]TarEnt{lower, upper}, LI: 1, Path: "a/c", Store: "db", Opaque: 1, Base: 13, BSize: 5, Fetched: 0,
+			Ops: []Op{{Op: "getxattr", Name: "trusted.overlay.opaque", Dlen: 8}, {Op: "getxattr", Name: "user.overlay.opaque", Dlen: 8}, {Op: "listxattr", Dlen: 100}}},
+		{Layers: [][]TarEnt{lower, upper}, LI: 1, Path: "a/c", Store: "memory", Opaque: 2, Base: 14, BSize: 5, Fetched: 0,
+			Ops: []Op{{Op: "getxattr", Name: "trusted.overlay.opaque", Dlen: 8}, {Op: "getxattr", Name: "user.overlay.opaque", Dlen: 8}, {Op: "listxattr", Dlen: 100}}},
+		{Layers: [][]TarEnt{lower, upper}, LI: 1, Path: "a", Store: "memory", Opaque: 2, Base: 15, BSize: 5, Fetched: 0,
+			Ops: []Op{{Op: "getxattr", Name: "user.overlay.opaque", Dlen: 8}, {Op: "listxattr", Dlen: 100}, {Op: "getattr"}}},
+		// a whiteout beside a real entry of the same name (real entry wins, listed once), both stores, listing first and lookup first
+		{Layers: [][]TarEnt{odd}, LI: 0, Path: "a", Store: "memory", Opaque: 0, Base: 16, BSize: 9, Fetched: 1,
+			Ops: []Op{lk("g", true), rd, lk("g", false), rd}},
+		{Layers: [][]TarEnt{{d("x"), f("x/.wh.k"), f("x/k"), f("x/.wh.j"), f("x/.wh.m"), f("x/m"), f("x/j2"), f("x/.wh.p1"), f("x/p1"), f("x/.wh.p2"), f("x/p2"), f("x/.wh.p3"), f("x/p3"), f("x/.wh.p4"), f("x/p4"), f("x/.wh.p5"), f("x/p5"), f("x/.wh.p6"), f("x/p6")}}, LI: 0, Path: "x", Store: "db", Opaque: 0, Base: 17, BSize: 9, Fetched: 1, Stack: true,
+			Ops: []Op{rd, lk("k", true), lk("j", true), lk("m", false), lk("k", false), lk("j", false), rd}},
+		// leaf nodes: Getattr, Open + file.Getattr, Readlink, xattrs
+		{Layers: [][]TarEnt{{d("a"), {P: "a/f", K: "f", M: 0o4755, UID: 1000, GID: 2000, Size: 5000, X: map[string]string{"user.k0": "v0"}}, {P: "a/l", K: "l", M: 0o777, Link: "../target"}}}, LI: 0, Path: "a/f", Store: "memory", Opaque: 1, Base: 18, BSize: 9, Fetched: 1,
+			Ops: []Op{{Op: "getattr"}, {Op: "fgetattr"}, {Op: "readlink"}, {Op: "getxattr", Name: "user.k0", Dlen: 1}, {Op: "getxattr", Name: "user.k0", Dlen: 64}, {Op: "listxattr", Dlen: 64}}},
+		{Layers: [][]TarEnt{{d("a"), {P: "a/f", K: "f", M: 0o644, Size: 1}, {P: "a/l", K: "l", M: 0o777, Link: "../target"}}}, LI: 0, Path: "a/f", Store: "db", Opaque: 1, Base: 19, BSize: 9, Fetched: 1,
+			Ops: []Op{{Op: "fgetattr"}, {Op: "getattr"}}},
+		{Layers: [][]TarEnt{{d("a"), {P: "a/l", K: "l", M: 0o777, Link: "../target"}}}, LI: 0, Path: "a/l", Store: "db", Opaque: 1, Base: 19, BSize: 9, Fetched: 1,
+			Ops: []Op{{Op: "readlink"}, {Op: "getattr"}}},
 		{Layers: [][]TarEnt{lower, upper}, Store: "db", Opaque: 1, Base: 20, BSize: 1, Fetched: 0, StackOnly: true},
 		{Layers: [][]TarEnt{lower, upper, lower}, Store: "memory", Opaque: 2, Base: 4000000000, BSize: 1, Fetched: 0, StackOnly: true},
 		// names beginning with .wh. that are not plain whiteouts
